@@ -110,6 +110,11 @@ class AsNumberAnonymizer(object):
         """Generate regex for finding AS number."""
         # Match a non-digit, any of the AS numbers and another non-digit
         # Using lookahead and lookbehind to match on context but not include that context in the match
+        if not as_numbers:
+            # Nothing to look for: a pattern that never matches (an empty alternation
+            # would match the empty string everywhere)
+            self.as_num_regex = re.compile(r"(?!)")
+            return
         self.as_num_regex = re.compile(
             r"(?:(?<=\D)|(?<=^))({})(?=\D|$)".format("|".join(as_numbers))
         )
@@ -149,7 +154,8 @@ class SensitiveWordAnonymizer(object):
         # Canonicalize reserved and sensitive words so case doesn't matter for
         # internal comparisons
         self.reserved_words = {w.lower() for w in reserved_words}
-        sensitive_words_ = {w.lower() for w in sensitive_words}
+        # An empty word would match at every position of every line
+        sensitive_words_ = {w.lower() for w in sensitive_words if w}
 
         self.salt = salt
         self.sens_regex = self._generate_sensitive_word_regex(sensitive_words_)
@@ -198,6 +204,9 @@ class SensitiveWordAnonymizer(object):
         # Longest first (then alphabetical) so a word is preferred over its own
         # prefixes and the result does not depend on set iteration order
         ordered_words = sorted(sensitive_words, key=lambda w: (-len(w), w))
+        if not ordered_words:
+            # Nothing to look for: a pattern that never matches
+            return re.compile(r"(?!)")
         return re.compile("({})".format("|".join(ordered_words)), re.IGNORECASE)
 
     def _get_or_generate_sensitive_word_replacement(self, sensitive_word):
